@@ -3,6 +3,7 @@ package expr
 import (
 	"errors"
 	"fmt"
+	"math"
 	"strings"
 
 	dtpb "github.com/google/fhir/go/proto/google/fhir/proto/r4/core/datatypes_go_proto"
@@ -812,6 +813,9 @@ func (e *NegationExpression) Evaluate(ctx *Context, input system.Collection) (sy
 	// handle negation of value
 	switch v := primitive.(type) {
 	case system.Integer:
+		if v == math.MinInt32 {
+			return system.Collection{}, nil // the negation does not fit an Integer
+		}
 		return system.Collection{system.Integer(-1) * v}, nil
 	case system.Decimal:
 		negative := system.Decimal(decimal.NewFromInt(-1))
